@@ -1,5 +1,5 @@
 (* C02Lemmas.v — pypika instance of the print/parse theorem. *)
-From PV Require Import Base Crit gen.TermsTable Terms Parse lemmas.ParseMono lemmas.ParsePrint C02Model C02Expected.
+From PV Require Import Base Crit gen.TermsTable Terms Parse lemmas.ParseMono lemmas.ParsePrint C02Model.
 From Coq Require Import Lia Arith.
 Local Open Scope list_scope.
 
@@ -35,13 +35,6 @@ Proof.
 Qed.
 
 (* ------------------------------------------------------------------------------------------- *)
-(* 2. THE CODE-SENSITIVE FINITE LEMMA: every expected pair is still dominated by the current     *)
-(*    (extracted) predicates, under all three engine tables.                                     *)
-(* ------------------------------------------------------------------------------------------- *)
-Lemma expected_pairs_ok : forallb ok_all_engines expected_pairs = true.
-Proof. vm_compute. reflexivity. Qed.
-
-(* ------------------------------------------------------------------------------------------- *)
 (* 3. from pairs to domination                                                                   *)
 (* ------------------------------------------------------------------------------------------- *)
 Lemma aop_eqb_eq a b : aop_eqb a b = true -> a = b.
@@ -65,14 +58,6 @@ Proof.
   f_equal; auto using pos_eqb_eq, head_eqb_eq.
 Qed.
 
-Lemma expected_ok ph T : ph_mem ph expected_pairs = true -> In T engines -> okp_h T (fst ph) (snd ph) = true.
-Proof.
-  intros M HT. unfold ph_mem in M. apply existsb_exists in M as [ph' [Hin Heq]].
-  apply ph_eqb_eq in Heq. subst ph'.
-  pose proof expected_pairs_ok as E. rewrite forallb_forall in E. specialize (E _ Hin).
-  unfold ok_all_engines in E. rewrite forallb_forall in E. apply E, HT.
-Qed.
-
 Lemma level_hd T c : level T c = head_level T (hd c).
 Proof. destruct c; reflexivity. Qed.
 
@@ -82,18 +67,33 @@ Proof. destruct c; cbn; auto; try (destruct o; reflexivity). Qed.
 Lemma top_bop_head c : top_bop_e c = head_bop (hd c).
 Proof. destruct c; cbn; auto. Qed.
 
-Lemma pol_h_lower p c : pol_h p (hd c) = true -> impl_pol p c = true.
+Lemma opnd_h_lower sl c : opnd_h sl (hd c) = true -> operand_parens sl (okind_e c) = true.
+Proof.
+  unfold opnd_h. destruct c as [a|c|c|o l r|p c|neg c items|c lo hi|g args|ws els]; cbn [hd okind_h okind_e]; auto.
+  - destruct o as [a|cm|b]; cbn [okind_h]; auto.
+  - intros H. apply andb_prop in H as [H1 H2]. destruct p; assumption.
+Qed.
+
+Lemma pol_b_lower p c : pol_h p (hd c) = true -> pol_b p c = true.
 Proof.
   pose proof (top_aop_head c) as HA. pose proof (top_bop_head c) as HB.
-  destruct p as [| |o|o| | | | |]; cbn [pol_h impl_pol]; auto.
+  destruct p as [| |o|o| | | | |]; cbn [pol_h pol_b]; auto using opnd_h_lower.
+  - intros H. apply orb_true_iff in H as [H|H]; apply orb_true_iff; [left; apply opnd_h_lower, H|right].
+    destruct c as [a|c|c|o l r|p c|neg c items|c lo hi|g args|ws els]; cbn [hd] in H; try discriminate; auto;
+    try (destruct o; try discriminate; auto).
   - destruct c; cbn; auto.
-  - destruct o as [a|cm|b]; auto.
-    + destruct (hd c) eqn:E; try discriminate; rewrite HA; auto.
+  - destruct o as [a|cm|b]; auto using opnd_h_lower.
+    + intros H. apply orb_true_iff in H as [H|H]; apply orb_true_iff; [left|right; apply opnd_h_lower, H].
+      destruct (hd c) eqn:E; try discriminate; rewrite HA; auto.
     + rewrite HB; auto.
-  - destruct o as [a|cm|b]; auto.
-    + destruct (hd c) eqn:E; try discriminate; rewrite HA; auto.
+  - destruct o as [a|cm|b]; auto using opnd_h_lower.
+    + intros H. apply orb_true_iff in H as [H|H]; apply orb_true_iff; [left|right; apply opnd_h_lower, H].
+      destruct (hd c) eqn:E; try discriminate; rewrite HA; auto.
     + rewrite HB; auto.
 Qed.
+
+Lemma pol_h_lower p c : pol_h p (hd c) = true -> impl_pol p c = true.
+Proof. intros H. unfold impl_pol. rewrite (pol_b_lower p c H). reflexivity. Qed.
 
 Lemma okp_of_h T p c : okp_h T p (hd c) = true -> okp T impl_pol p c = true.
 Proof.
@@ -122,13 +122,6 @@ Proof.
   | H : forallb _ (_ ++ _) = true |- _ => apply forallb_app' in H as [? ?]
   end;
   repeat (apply andb_true_intro; split); auto using okp_of_pair.
-Qed.
-
-Lemma expected_dom T e : In T engines ->
-  forallb (fun ph => ph_mem ph expected_pairs) (pairs_of e) = true -> dom T impl_pol e = true.
-Proof.
-  intros HT H. apply (proj1 (pairs_dom_all T)).
-  rewrite forallb_forall in *. intros ph Hin. unfold okp_pair. apply expected_ok; auto.
 Qed.
 
 (* ------------------------------------------------------------------------------------------- *)
@@ -175,67 +168,123 @@ Proof.
   - eexists; eexists; eexists; split; [reflexivity | left; reflexivity].
 Qed.
 
-(* policy-equivalence of children *)
-Definition peq (c1 c2 : expr) : Prop := forall p, impl_pol p c1 = impl_pol p c2.
+(* policy-equivalence of children: everything the policy looks at in a child *)
+Definition negk (c : expr) : nat := match c with EBin (BA _) _ _ => 1 | ENeg _ => 2 | _ => 0 end.
+Definition peqb (c1 c2 : expr) : Prop :=
+  okind_e c1 = okind_e c2 /\ top_bop_e c1 = top_bop_e c2 /\ negk c1 = negk c2
+  /\ (forall x, left_needs_parens x (top_aop c1) = left_needs_parens x (top_aop c2)
+             /\ right_needs_parens x (top_aop c1) = right_needs_parens x (top_aop c2)).
 
-Lemma peq_family o o3 l r l' r' : (o3 = o \/ reassoc o o3 = true) -> peq (EBin o3 l' r') (EBin o l r).
+Lemma pol_b_peqb c1 c2 : peqb c1 c2 -> forall p, pol_b p c1 = pol_b p c2.
 Proof.
-  intros [->|H] p; [destruct p as [| |q|q| | | | |]; try reflexivity; destruct q; reflexivity|].
-  destruct (reassoc_shape _ _ H) as [[a [a2 [-> ->]]]|[b [-> ->]]].
-  - destruct (F4_arith a a2) with (b := OAdd) as [_ _]; auto.
-    destruct p as [| |q|q| | | | |]; cbn; try reflexivity; destruct q as [x|x|x]; cbn; try reflexivity;
-    destruct (F4_arith a a2 x H) as [E1 E2]; congruence.
-  - destruct p as [| |q|q| | | | |]; reflexivity.
+  intros [K [B [N A]]] p. destruct p as [| |q|q| | | | |]; cbn [pol_b]; rewrite ?K; try reflexivity.
+  - f_equal. destruct c1 as [| | |[]| | | | |], c2 as [| | |[]| | | | |]; cbn in N; try discriminate; reflexivity.
+  - destruct c1 as [| | |[]| | | | |], c2 as [| | |[]| | | | |]; cbn in B; try discriminate; reflexivity.
+  - destruct q as [x|x|x]; rewrite ?K, ?B; try reflexivity. rewrite (proj1 (A x)). reflexivity.
+  - destruct q as [x|x|x]; rewrite ?K, ?B; try reflexivity. rewrite (proj2 (A x)). reflexivity.
 Qed.
 
-Lemma peq_rot o l r : peq (rot o l r) (EBin o l r).
+Lemma peqb_family o o3 l r l' r' : (o3 = o \/ reassoc o o3 = true) -> peqb (EBin o3 l' r') (EBin o l r).
 Proof.
-  destruct (rot_head r o l) as [o3 [l' [r' [E H]]]]. rewrite E. apply peq_family. exact H.
+  intros [->|H]; [repeat split|].
+  destruct (reassoc_shape _ _ H) as [[a [a2 [-> ->]]]|[b [-> ->]]]; repeat split; cbn [top_aop];
+  destruct (F4_arith a a2 x H) as [E1 E2]; congruence.
 Qed.
 
-Lemma peq_not c1 c2 : peq c1 c2 -> peq (ENot c1) (ENot c2).
+Lemma peqb_rot o l r : peqb (rot o l r) (EBin o l r).
 Proof.
-  intros H p. destruct p as [| |q|q| | | | |]; try reflexivity; destruct q as [x|x|x]; try reflexivity; cbn.
-  - exact (H (PBinL (BA x))).
-  - exact (H (PBinR (BA x))).
+  destruct (rot_head r o l) as [o3 [l' [r' [E H]]]]. rewrite E. apply peqb_family. exact H.
 Qed.
 
-Lemma peq_same_head c1 c2 : hd c1 = hd c2 -> hd c1 <> HNot -> peq c1 c2.
+Lemma peqb_not c1 c2 : peqb c1 c2 -> peqb (ENot c1) (ENot c2).
+Proof. intros [K [B [N A]]]. repeat split; cbn [top_aop]; apply A. Qed.
+
+Lemma peqb_same_head c1 c2 : hd c1 = hd c2 -> hd c1 <> HNot -> hd c1 <> HPost -> peqb c1 c2.
 Proof.
-  intros H N p. destruct c1, c2; try discriminate; cbn in N; try congruence; inversion H; subst;
-  destruct p as [| |q|q| | | | |]; try reflexivity; destruct q; reflexivity.
+  intros H N P. destruct c1, c2; try discriminate; cbn in N, P; try congruence; inversion H; subst; repeat split.
 Qed.
 
-Lemma peq_trans c1 c2 c3 : peq c1 c2 -> peq c2 c3 -> peq c1 c3.
-Proof. intros A B p. rewrite (A p). apply B. Qed.
+Lemma peqb_post p c1 c2 : peqb (EPost p c1) (EPost p c2).
+Proof. repeat split. Qed.
 
-Lemma peq_norm : forall c, peq (norm c) c.
+Lemma peqb_trans c1 c2 c3 : peqb c1 c2 -> peqb c2 c3 -> peqb c1 c3.
+Proof.
+  intros [K1 [B1 [N1 A1]]] [K2 [B2 [N2 A2]]]. repeat split; try congruence;
+  [rewrite (proj1 (A1 x)); apply A2 | rewrite (proj2 (A1 x)); apply A2].
+Qed.
+
+Lemma peqb_norm : forall c, peqb (norm c) c.
 Proof.
   induction c as [a|c IHc|c IHc|o l IHl r IHr|p c IHc|neg c IHc items|c IHc lo IHlo hi IHhi|g args|ws els];
-    cbn [norm]; try (apply peq_same_head; [reflexivity | discriminate]).
-  - apply peq_not, IHc.
-  - eapply peq_trans; [apply peq_rot|]. apply peq_same_head; [reflexivity | discriminate].
+    cbn [norm]; try (apply peqb_same_head; [reflexivity | discriminate | discriminate]).
+  - apply peqb_not, IHc.
+  - eapply peqb_trans; [apply peqb_rot|]. apply peqb_same_head; [reflexivity | discriminate | discriminate].
+  - apply peqb_post.
 Qed.
+
+(* facts about the probed operand table that the re-association argument needs *)
+Lemma opnd_arith_sides : forall k, operand_parens SArithR k = operand_parens SArithL k.
+Proof. destruct k; vm_compute; reflexivity. Qed.
+Lemma opnd_arith_other : operand_parens SArithL OKOther = false /\ operand_parens SArithR OKOther = false.
+Proof. vm_compute. split; reflexivity. Qed.
+Lemma reassoc_not_sub o2 : reassoc (BA OSub) o2 = false.
+Proof. destruct o2 as [[]|c|b]; vm_compute; reflexivity. Qed.
+
+Lemma impl_pol_left o c : impl_pol (PBinL o) c = pol_b (PBinL o) c.
+Proof. unfold impl_pol. apply orb_false_r. Qed.
 
 Lemma reassoc_F1 o o2 rl rr : reassoc o o2 = true -> impl_pol (PBinR o) (EBin o2 rl rr) = false.
 Proof.
-  intros H. destruct (reassoc_shape _ _ H) as [[a [a2 [-> ->]]]|[b [-> ->]]];
-  unfold reassoc in H; apply andb_prop in H as [_ H]; apply negb_true_iff in H; exact H.
+  intros H. destruct (reassoc_shape _ _ H) as [[a [a2 [-> ->]]]|[b [-> ->]]].
+  - assert (Hs : a <> OSub) by (intros ->; rewrite reassoc_not_sub in H; discriminate).
+    unfold reassoc in H; apply andb_prop in H as [_ H]; apply negb_true_iff in H.
+    unfold impl_pol. cbn [pol_b top_aop okind_e]. rewrite H, (proj2 opnd_arith_other). destruct a; try reflexivity. congruence.
+  - unfold reassoc in H; apply andb_prop in H as [_ H]; apply negb_true_iff in H.
+    unfold impl_pol. cbn [pol_b top_bop_e]. rewrite H. reflexivity.
 Qed.
 
-Lemma reassoc_F2 o o2 l rl : reassoc o o2 = true -> impl_pol (PBinL o2) (EBin o l rl) = false.
+Lemma reassoc_F2 o o2 l rl : reassoc o o2 = true -> pol_b (PBinL o2) (EBin o l rl) = false.
 Proof.
-  intros H. destruct (reassoc_shape _ _ H) as [[a [a2 [-> ->]]]|[b [-> ->]]]; cbn.
-  - apply (F2_arith a a2 a H). left. reflexivity.
+  intros H. destruct (reassoc_shape _ _ H) as [[a [a2 [-> ->]]]|[b [-> ->]]]; cbn [pol_b top_aop top_bop_e okind_e].
+  - rewrite (F2_arith a a2 a H) by (left; reflexivity). apply (proj1 opnd_arith_other).
   - apply F2_bool.
 Qed.
 
 Lemma reassoc_F3 o o2 c : reassoc o o2 = true -> impl_pol (PBinR o) c = impl_pol (PBinL o2) c.
 Proof.
-  intros H. destruct (reassoc_shape _ _ H) as [[a [a2 [-> ->]]]|[b [-> ->]]]; cbn.
-  - apply F3_arith, H.
-  - reflexivity.
+  intros H. rewrite impl_pol_left. destruct (reassoc_shape _ _ H) as [[a [a2 [-> ->]]]|[b [-> ->]]].
+  - assert (Hs : a <> OSub) by (intros ->; rewrite reassoc_not_sub in H; discriminate).
+    unfold impl_pol. cbn [pol_b]. rewrite (F3_arith a a2 _ H), opnd_arith_sides.
+    destruct a; try congruence; apply orb_false_r.
+  - unfold impl_pol. cbn [pol_b]. apply orb_false_r.
 Qed.
+
+(* the minus rules look at the left spine only, which re-association keeps *)
+Lemma lead_minus_rot : forall r o l, lead_minus (rot o l r) = lead_minus (EBin o l r).
+Proof.
+  induction r as [a|c IHc|c IHc|o2 rl IHl rr IHr|p c IHc|neg c IHc items|c IHc lo IHlo hi IHhi|g args|ws els];
+    intros o l; cbn [rot]; try reflexivity.
+  destruct (reassoc o o2) eqn:E; [|reflexivity].
+  cbn [lead_minus]. rewrite (pol_b_peqb _ _ (peqb_rot o l rl)), (reassoc_F2 o o2 l rl E), IHl. reflexivity.
+Qed.
+
+Lemma lead_minus_norm : forall c, lead_minus (norm c) = lead_minus c.
+Proof.
+  induction c as [a|c IHc|c IHc|o l IHl r IHr|p c IHc|neg c IHc items|c IHc lo IHlo hi IHhi|g args|ws els];
+    cbn [norm]; try reflexivity.
+  - rewrite lead_minus_rot. cbn [lead_minus]. rewrite (pol_b_peqb _ _ (peqb_norm l)), IHl. reflexivity.
+  - cbn [lead_minus]. rewrite (pol_b_peqb _ _ (peqb_norm c)), IHc. reflexivity.
+  - cbn [lead_minus]. rewrite (pol_b_peqb _ _ (peqb_norm c)), IHc. reflexivity.
+  - cbn [lead_minus]. rewrite (pol_b_peqb _ _ (peqb_norm c)), IHc. reflexivity.
+Qed.
+
+Definition peq (c1 c2 : expr) : Prop := forall p, impl_pol p c1 = impl_pol p c2.
+Lemma peq_of c1 c2 : peqb c1 c2 -> lead_minus c1 = lead_minus c2 -> peq c1 c2.
+Proof. intros B L p. unfold impl_pol. rewrite (pol_b_peqb _ _ B p), L. reflexivity. Qed.
+Lemma peq_norm c : peq (norm c) c.
+Proof. apply peq_of; [apply peqb_norm | apply lead_minus_norm]. Qed.
+Lemma peq_rot o l r : peq (rot o l r) (EBin o l r).
+Proof. apply peq_of; [apply peqb_rot | apply lead_minus_rot]. Qed.
 
 (* unfolding equations of the printer *)
 Section PrEq.
@@ -265,7 +314,7 @@ Proof.
     intros o l; cbn [rot]; try reflexivity.
   destruct (reassoc o o2) eqn:E; [|reflexivity].
   rewrite (pr_EBin impl_pol o2 (rot o l rl) rr), IHl.
-  rewrite (peq_rot o l rl (PBinL o2)), (reassoc_F2 o o2 l rl E).
+  rewrite (peq_rot o l rl (PBinL o2)), impl_pol_left, (reassoc_F2 o o2 l rl E).
   rewrite (pr_EBin impl_pol o l (EBin o2 rl rr)), (reassoc_F1 o o2 rl rr E).
   rewrite (pr_EBin impl_pol o l rl), (pr_EBin impl_pol o2 rl rr).
   cbn [par]. rewrite (reassoc_F3 o o2 rl E). rewrite <- app_assoc. reflexivity.
@@ -409,11 +458,15 @@ Ltac inv_some H :=
   end.
 
 Lemma leaf_case c t ts : (forall c', render (set_wa c' false) t = render c' t) ->
-  (s <~ leaf_text (set_wa c false) t ;; Some [KAtom s]) = Some ts -> render c t = Ok (flatten ts).
+  (s <~ leaf_text (set_wa c false) t ;; match s with EmptyString => None | _ => Some [KAtom s] end) = Some ts ->
+  render c t = Ok (flatten ts).
 Proof.
-  intros Hwa H. inv_some H. inversion H; subst. apply leaf_render in E. rewrite Hwa in E. rewrite E.
-  cbn. rewrite sapp_nil_r. reflexivity.
+  intros Hwa H. inv_some H. destruct s as [|ch s']; [discriminate|]. inversion H; subst. apply leaf_render in E.
+  rewrite Hwa in E. rewrite E. cbn [flatten map tok_text sconcat]. rewrite sapp_nil_r. reflexivity.
 Qed.
+
+Lemma paren_parl b l : paren b (flatten l) = flatten (parl b l).
+Proof. symmetry. apply flatten_parl. Qed.
 
 Lemma render_list_cons c t r : render_list c (TCons t r) = bind (render c t) (fun a => bind (render_list c r) (fun rest => Ok (a :: rest))).
 Proof. reflexivity. Qed.
@@ -437,14 +490,14 @@ Proof.
   - (* TLit *) intros raw alias. split; [|exact I]. intros c ts H. cbn [rtoks] in H. destruct alias; [discriminate|]. apply leaf_case in H; auto.
   - (* TParam *) intros txt. split; [|exact I]. intros c ts H. cbn [rtoks] in H. apply leaf_case in H; auto.
   - (* TNeg *) intros t [IH _]. split; [|exact I]. intros c ts H. cbn [rtoks] in H. inv_some H. inversion H; subst.
-    cbn [render]. rewrite (IH _ _ E). cbn [bind]. rewrite flatten_cons. reflexivity.
+    cbn [render]. rewrite (IH _ _ E). cbn [bind]. unfold opnd. rewrite flatten_cons, !flatten_parl. reflexivity.
   - (* TArith *) intros op l [IHl _] r [IHr _] alias. split; [|exact I]. intros c ts H. cbn [rtoks] in H. destruct alias; [discriminate|].
-    inv_some H. inversion H; subst. cbn [render]. rewrite (IHl _ _ E), (IHr _ _ E0). cbn [bind].
+    inv_some H. inversion H; subst. cbn [render]. rewrite (IHl _ _ E), (IHr _ _ E0). cbn [bind]. unfold opnd.
     rewrite flatten_app, flatten_cons, !flatten_parl. cbn [tok_text binop_text].
     destruct (wa c); reflexivity.
   - (* TBasic *) intros cm l [IHl _] r [IHr _] alias. split; [|exact I]. intros c ts H. cbn [rtoks] in H. destruct alias; [discriminate|].
-    inv_some H. inversion H; subst. cbn [render]. rewrite (IHl _ _ E), (IHr _ _ E0). cbn [bind].
-    rewrite flatten_app, flatten_cons. cbn [tok_text binop_text]. destruct (wa c); reflexivity.
+    inv_some H. inversion H; subst. cbn [render]. rewrite (IHl _ _ E), (IHr _ _ E0). cbn [bind]. unfold opnd.
+    rewrite flatten_app, flatten_cons, !flatten_parl. cbn [tok_text binop_text]. destruct (wa c); reflexivity.
   - (* TCplx *) intros bo l [IHl _] r [IHr _] alias. split; [|exact I]. intros c ts H. cbn [rtoks] in H. destruct alias; [discriminate|].
     inv_some H. inversion H; subst. cbn [render]. rewrite (IHl _ _ E), (IHr _ _ E0). cbn [bind].
     rewrite flatten_parl, flatten_app, flatten_cons. cbn [tok_text binop_text].
@@ -452,21 +505,21 @@ Proof.
   - (* TIn *) intros t [IHt _] cont [_ IHc] negated alias. split; [|exact I]. intros c ts H. cbn [rtoks] in H.
     destruct cont; try discriminate. destruct alias0; [discriminate|]. destruct alias; [discriminate|].
     inv_some H. inversion H; subst. cbn [render]. rewrite (IHt _ _ E). cbn [bind].
-    destruct (IHc _ _ E0) as [ss [R [F _]]]. rewrite R. cbn [bind]. rewrite !alias_none. cbn [bind].
-    rewrite flatten_app, !flatten_cons, flatten_app, flatten_cons, flatten_nil, F. cbn [tok_text].
+    destruct (IHc _ _ E0) as [ss [R [F _]]]. rewrite R. cbn [bind]. rewrite !alias_none. cbn [bind]. unfold opnd.
+    rewrite flatten_app, !flatten_cons, flatten_app, flatten_cons, flatten_nil, F, flatten_parl. cbn [tok_text].
     rewrite sapp_nil_r. destruct negated; cbn; rewrite ?sapp_assoc; reflexivity.
   - (* TBetween *) intros t [IHt _] lo [IHlo _] hi [IHhi _] alias. split; [|exact I]. intros c ts H. cbn [rtoks] in H.
     destruct alias; [discriminate|]. inv_some H. inversion H; subst. cbn [render].
-    rewrite (IHt _ _ E), (IHlo _ _ E0), (IHhi _ _ E1). cbn [bind]. rewrite alias_none.
-    rewrite flatten_app, flatten_cons, flatten_app, flatten_cons. cbn [tok_text binop_text]. vm_compute (bop_text_x BAnd).
+    rewrite (IHt _ _ E), (IHlo _ _ E0), (IHhi _ _ E1). cbn [bind]. rewrite alias_none. unfold opnd.
+    rewrite flatten_app, flatten_cons, flatten_app, flatten_cons, !flatten_parl. cbn [tok_text binop_text]. vm_compute (bop_text_x BAnd).
     rewrite !sapp_assoc. reflexivity.
   - (* TBitAnd *) intros t _ v alias. split; [|exact I]. intros c ts H. discriminate H.
   - (* TIsNull *) intros t [IHt _] alias. split; [|exact I]. intros c ts H. cbn [rtoks] in H. destruct alias; [discriminate|].
-    inv_some H. inversion H; subst. cbn [render]. rewrite (IHt _ _ E). cbn [bind]. rewrite alias_none.
-    rewrite flatten_app, flatten_cons, flatten_nil. cbn [tok_text]. rewrite sapp_nil_r. reflexivity.
+    inv_some H. inversion H; subst. cbn [render]. rewrite (IHt _ _ E). cbn [bind]. rewrite alias_none. unfold opnd.
+    rewrite flatten_app, flatten_cons, flatten_nil, flatten_parl. cbn [tok_text]. rewrite sapp_nil_r. reflexivity.
   - (* TNotNull *) intros t [IHt _] alias. split; [|exact I]. intros c ts H. cbn [rtoks] in H. destruct alias; [discriminate|].
-    inv_some H. inversion H; subst. cbn [render]. rewrite (IHt _ _ E). cbn [bind]. rewrite alias_none.
-    rewrite flatten_app, flatten_cons, flatten_nil. cbn [tok_text]. rewrite sapp_nil_r. reflexivity.
+    inv_some H. inversion H; subst. cbn [render]. rewrite (IHt _ _ E). cbn [bind]. rewrite alias_none. unfold opnd.
+    rewrite flatten_app, flatten_cons, flatten_nil, flatten_parl. cbn [tok_text]. rewrite sapp_nil_r. reflexivity.
   - (* TNot *) intros t [IHt _] alias. split; [|exact I]. intros c ts H. cbn [rtoks] in H. destruct alias; [discriminate|].
     inv_some H. inversion H; subst. cbn [render]. rewrite (IHt _ _ E). cbn [bind]. rewrite alias_none.
     rewrite flatten_cons. reflexivity.
